@@ -183,12 +183,16 @@ def numerics(ctx):
                                    "Phi": Phi.tolist(), "finite_difference": Jfd.tolist(), "rel_err": err})
                     return
                 res = float(np.abs(Phi.T @ Om @ Phi - Om).max() / (1 + np.abs(Phi).max() ** 2))
-                if not res <= 1e-6:
+                # Runge-Kutta schemes are symplectic only up to their discretisation error: the admissible residual scales with the accuracy
+                # this method/step count achieves on the state itself (reference: the tight adaptive run of the same flow)
+                xref = _propagate_dynsys(_sys("rtbp", mu), s, 0.0, tf, forward=fwd, steps=2, method="adaptive", order=8, rtol=1e-13, atol=1e-13).states[-1]
+                err_int = float(np.abs(np.asarray(x[-1]) - xref).max())
+                if not res <= 1e-6 + 50 * err_int:
                     ctx.violation("stm-not-symplectic:%+d" % fwd, "Phi^T Omega Phi != Omega (rel. residual %g)" % res,
                                   {"mu": mu, "state0": s.tolist(), "tf": tf, "method": meth, "order": order, "forward": fwd, "residual": res})
                     return
                 detv = float(np.linalg.det(Phi))
-                if not abs(detv - 1) <= 1e-5 * (1 + np.abs(Phi).max() ** 2):
+                if not abs(detv - 1) <= (1e-5 + 300 * err_int) * (1 + np.abs(Phi).max() ** 2):
                     ctx.violation("stm-det:%+d" % fwd, "det Phi = %r" % detv, {"mu": mu, "state0": s.tolist(), "tf": tf, "forward": fwd, "det": detv})
                     return
                 # Phi f(x0) = (+/-) f(x_T): the (directed) vector field solves the variational equation
